@@ -127,7 +127,7 @@ PROPERTIES = {
     "C01": {
         "level": "other",
         "targets": [F("conn.FakeSnowflakeConnection.__init__"), F("cursor.FakeSnowflakeCursor.fetchmany"), F("cursor.FakeSnowflakeCursor.fetchone"), F("cursor.FakeSnowflakeCursor.fetchall"),
-                    F("transforms.float_to_double"), F("transforms.semi_structured_types"), F("transforms.timestamp_ntz"), F("transforms.integer_precision")],
+                    F("transforms.float_to_double"), F("transforms.semi_structured_types"), F("transforms.timestamp_ntz"), F("transforms.integer_precision"), F("transforms.create_clone")],
         "also": {"fakesnow.cursor.FakeSnowflakeCursor.fetchmany": [r"C05\.fetchmany"], "fakesnow.cursor.FakeSnowflakeCursor.fetchone": [r"C05\.fetchone"], "fakesnow.cursor.FakeSnowflakeCursor.fetchall": [r"C05\.fetchall"]},
         "bounded": "bounded.C01",
         "trusted_base": [A_DUCK, "A-ARROW: pyarrow to_pylist conversion of DuckDB's arrow result to Python values"],
@@ -166,7 +166,7 @@ PROPERTIES = {
     "C10": {
         "level": "other",
         "targets": [F("transforms.values_columns"), F("transforms.dateadd_date_cast"), F("transforms.regex_replace"), F("transforms._get_to_number_args"),
-                    F("transforms._to_decimal"), F("transforms.to_date"), F("transforms.to_timestamp"), F("transforms.to_timestamp_ntz"), F("transforms.identifier"), F("transforms.sample"),
+                    F("transforms._to_decimal"), F("transforms.to_date"), F("transforms.to_timestamp"), F("transforms.to_timestamp_ntz"), F("transforms.identifier"), F("transforms.sample"), F("transforms.array_agg"), F("transforms.dateadd_string_literal_timestamp_cast"),
                     F("cursor.FakeSnowflakeCursor._transform"), F("cursor.FakeSnowflakeCursor._execute")],
         "also": {"fakesnow.cursor.FakeSnowflakeCursor._transform": [r"C11\.pipeline\.order"]},
         "labelled_only": ["fakesnow.cursor.FakeSnowflakeCursor._execute"],
